@@ -648,25 +648,38 @@ InvB(ty, x) == RecipB(ty, x)
 \* sph_j0/1/2 : branch on  self.re().abs() < F::epsilon()
 \* (before the repair "fix: sph_j0/sph_j1/sph_j2 ..." the code tested re() < epsilon; TLC
 \*  reported every negative sample point of Towers.tla as a counterexample)
-SphSmall(x) == FLt(FAbs(ReB(x)), FEps)
-\* small-argument branches (since the repair "fix: small-argument series of sph_j0/..."):
-\*   1 - z/6 + z*z/120 ,  x/3 - x*x*x/30 ,  z/15 - z*z/210     with z = x*x
-\* (before, only the first non-constant term: Special.tla reported the third-order part of
-\*  sph_j1 and the fourth-order parts of all three at 0)
+SphSmall(x) == FLt(FAbs(ReB(x)), FOfQ(<<3, 10>>))
+\* small-argument branches: since the repair "fix: sph_j0/sph_j1/sph_j2 lose all accuracy below ~1e-2" the
+\* switch is |re()| < 0.3 and the branch is the ascending series in z = x*x by Horner's rule,
+\*   j0 = ((((((-z c7 + c6) z - c5) z + c4) z - c3) z + c2) z - c1) z + 1,   c_k = 1/(2k+1)!
+\*   j1 = ( ...                                               z + 1/3) x,   c_k = 1/(2^k k! (2k+3)!!)
+\*   j2 = ( ...                                               z + 1/15) z,  c_k = 1/(2^k k! (2k+5)!!)
+\* with eight terms.  The denominators of c5, c6, c7 (up to 4.2e14) are beyond TLC's integers; the model keeps
+\* the terms through c4 -- the dropped terms are multiples of x^10, so every derivative of order <= 9 AT 0,
+\* where the models evaluate this branch, is the same.  (Float harness: all terms, all arguments.)
+\* History: the first version switched on re() < eps and kept one non-constant term ("fix: sph_j0/1/2 for
+\* negative arguments", "fix: small-argument series of sph_j0/..."); the closed forms below cancelled
+\* catastrophically for eps <= |x| < 1e-2 (finding sph-small-arg, now repaired).
+SphHorner(ty, z, dens) ==       \* dens = <<d1, d2, d3, d4>>:  (((z/d4 - 1/d3) z + 1/d2) z - 1/d1)
+    LET s4 == DivFB(ty, z, QInt(dens[4]))
+        s3 == SubFB(ty, s4, <<1, dens[3]>>)
+        s2 == AddFB(ty, MulB(ty, s3, z), <<1, dens[2]>>)
+    IN  SubFB(ty, MulB(ty, s2, z), <<1, dens[1]>>)
 SphJ0B(ty, x) ==
     IF SphSmall(x)
     THEN LET z == MulB(ty, x, x)
-         IN  AddB(ty, SubB(ty, OneB(ty), DivFB(ty, z, QInt(6))), DivFB(ty, MulB(ty, z, z), QInt(120)))
+         IN  AddFB(ty, MulB(ty, SphHorner(ty, z, <<6, 120, 5040, 362880>>), z), Q1)
     ELSE DivB(ty, ElemB(ty, "sin", x), x)
 SphJ1B(ty, x) ==
     IF SphSmall(x)
-    THEN SubB(ty, DivFB(ty, x, QInt(3)), DivFB(ty, MulB(ty, MulB(ty, x, x), x), QInt(30)))
+    THEN LET z == MulB(ty, x, x)
+         IN  MulB(ty, AddFB(ty, MulB(ty, SphHorner(ty, z, <<30, 840, 45360, 3991680>>), z), <<1, 3>>), x)
     ELSE LET sc == SinCosB(ty, x)
          IN  DivB(ty, SubB(ty, sc[1], MulB(ty, x, sc[2])), MulB(ty, x, x))
 SphJ2B(ty, x) ==
     IF SphSmall(x)
     THEN LET z == MulB(ty, x, x)
-         IN  SubB(ty, DivFB(ty, z, QInt(15)), DivFB(ty, MulB(ty, z, z), QInt(210)))
+         IN  MulB(ty, AddFB(ty, MulB(ty, SphHorner(ty, z, <<210, 7560, 498960, 51891840>>), z), <<1, 15>>), z)
     ELSE LET sc == SinCosB(ty, x)
              s2 == MulB(ty, x, x)
          IN  DivB(ty, SubB(ty, MulFB(ty, SubB(ty, sc[1], MulB(ty, x, sc[2])), QInt(3)),
